@@ -42,7 +42,7 @@ def obs_code(o):
     if o.get("leaked") or o.get("rows_open", 0) > 0:
         return 4
     st = o["status"]
-    if 200 <= st < 300:
+    if 200 <= st < 300 or st == 101:   # 101: websocket upgrade of the live tail
         return 0
     if 400 <= st < 500:
         return 1
